@@ -781,7 +781,8 @@ pub fn assemble_forced(prog: &Program, forced: Option<&HashMap<usize, usize>>) -
     }
     let mut len = 0usize;
     for w in &writes {
-        if w.2.is_negative() {
+        // (a reservation and an element of width zero write no bit: they do not extend the output)
+        if w.2.is_negative() || w.1 == 0 {
             continue;
         }
         len = len.max(w.0 + w.1);
